@@ -20,7 +20,9 @@ from . import tlc as T
 from .pool import _default
 
 VERIF = T.VERIF
-EVID = os.path.join(VERIF, "evidence")
+# VERIF_EVIDENCE_DIR: used by the seeded-change tools so that a run against a changed tree never
+# overwrites the committed evidence of the unchanged tree
+EVID = os.environ.get("VERIF_EVIDENCE_DIR") or os.path.join(VERIF, "evidence")
 REPLAYS = os.path.join(EVID, "replays")
 KF_PATH = os.path.join(VERIF, "KNOWN_FINDINGS.json")
 
